@@ -603,6 +603,7 @@ fn run_section_cli(rep: &mut Report, section: &str, cases: Vec<CliCase>, model: 
         rep.evaluations += 1;
         tally(rep, section, c);
         let uid = format!("{}_{}_{}", section, seed, i);
+        progress(&c.req());
         match eval_cli(c, model, bin, work, &uid) {
             None => {
                 let dec = model.query(&[c.decision_req()]);
@@ -807,7 +808,10 @@ fn relations(r: &mut Rng, model: &Model, bin: &str, work: &str, uid: &str) -> Op
             // min: threads keep the set of lines
             let m = r.range(7, 9);
             let nn = r.range(2, 8) as usize;
-            let recs = seqs(r, nn, m as usize + 4, 150, false);
+            let mut recs = seqs(r, nn, m as usize + 4, 150, false);
+            // many copies of the same reads: all workers meet the same minimisers at the same time
+            let base = recs.clone();
+            for _ in 0..60 { recs.extend(base.iter().cloned()); }
             let w = if r.chance(1, 2) { 0 } else { m + 5 };
             let p = r.pick(&["s2m", "m2s"]).to_string();
             let base = CliCase { sub: Sub::Min { m, w, preset: p, threads: 1 }, recs, container: "fa".into() };
@@ -1126,4 +1130,24 @@ pub fn run_c17(tier: &str, seed: u64, model: &Model, corpus_lines: Vec<String>, 
         }
     }
     rep
+}
+
+/// C03: the header line of the CLI for every accepted k and every delimiter preset, both writer paths
+pub fn run_c03_cli(rep: &mut Report, tier: &str, seed: u64, model: &Model, bin: &str, work: &str) {
+    if tier == "replay" || sharded() {
+        return;
+    }
+    rep.rules.push("CLI: `comp oligo -H` for every k in 3..=7 x presets csv/tsv/spc x normalised/counts on a small input; the whole output (header = canonical k-mers in column order joined by the preset delimiter) is compared with the Lean expectation".into());
+    let mut cases = Vec::new();
+    let mut r = Rng::new(seed ^ 0xC03);
+    for k in 3..=7u64 {
+        for preset in ["csv", "tsv", "spc"] {
+            for counts in [false, true] {
+                let recs = vec![gen::clean_seq(&mut r, 2 * k as usize + 3, gen::Flavor::Uniform), gen::clean_seq(&mut r, k as usize, gen::Flavor::Uniform)];
+                cases.push(CliCase { sub: Sub::Oligo { k, counts, header: true, preset: preset.into(), threads: 2, stdin: false }, recs, container: "fa".into() });
+            }
+        }
+    }
+    rep.exhaustive_spaces.push("CLI header for every accepted k (3..=7) x every delimiter preset x both writer paths".into());
+    run_section_cli(rep, "cli-header", cases, model, bin, work, seed);
 }
